@@ -345,7 +345,7 @@ func init() {
 
 	genPair := func(r *vh.Rng, g *genCtx) *tcase {
 		x, y := g.val(r), g.val(r)
-		switch r.Intn(6) {
+		switch r.Intn(7) {
 		case 0:
 			y = new(big.Int).Set(x)
 		case 1: // common factor
@@ -353,9 +353,16 @@ func init() {
 			x, y = new(big.Int).Mul(x, f), new(big.Int).Mul(y, f)
 		case 2:
 			y = new(big.Int).Add(x, one)
+		case 3: // long subtract-and-halve chains for the binary GCD: 2^b-1 against 2^b-3 / 1 / 3
+			b := 2 + g.bits(r)
+			x = new(big.Int).Sub(new(big.Int).Lsh(one, uint(b)), one)
+			y = vh.Pick(r, []*big.Int{new(big.Int).Sub(x, two), big.NewInt(1), big.NewInt(3), new(big.Int).Rsh(x, 1)})
 		}
 		mode := r.Intn(6)
 		ax, ay := g.capFor(r, x), g.capFor(r, y)
+		if r.Intn(3) == 0 { // exact announced lengths: the iteration bound of the binary GCD is tight
+			ax, ay = x.BitLen(), y.BitLen()
+		}
 		if mode == 3 || mode == 4 {
 			y, ay = x, ax
 		}
@@ -528,7 +535,14 @@ func init() {
 			}
 			return okz(new(big.Int).SetBytes(b), zi(8*len(b)))
 		}})
-	register(&opDef{name: "nat.incdec", weight: 4, gen: genUn,
+	register(&opDef{name: "nat.incdec", weight: 4,
+		gen: func(r *vh.Rng, g *genCtx) *tcase {
+			c := genUn(r, g)
+			if tr(ai(c, 1), c.args[0]).Sign() == 0 { // Decrement of zero wraps; not claimed
+				c.args[0], c.args[1] = big.NewInt(1), zi(1+r.Intn(70))
+			}
+			return c
+		},
 		impl: func(c *tcase) (string, string) {
 			x, y := mkNat(c.args[0], ai(c, 1)), mkNat(c.args[0], ai(c, 1))
 			x.Increment()
